@@ -10,7 +10,7 @@ import subprocess
 import sys
 import time
 
-MUT = "/tmp/mut"
+MUT = os.environ.get("MUT_DIR", "/tmp/mut")
 
 
 def sh(cmd, **kw):
